@@ -63,9 +63,20 @@ def _lean_list(xs):
 
 def occurrence_lean(rows) -> str:
     out = [
+        "/-- One occurrence inside a formulated matrix: `W` = energy-dependent width of pole `pole` in channel",
+        "`channel`, `F` = form factor of the channel at `s` (`pole = 0`) or at `m_R²`, `R` = phase-space node. -/",
+        "structure OccItem where",
+        "  kind : String",
+        "  pole : Nat",
+        "  channel : Nat",
+        "  phsp : String",
+        "  angMom : String",
+        "  radius : String",
+        "",
         "/-- What occurs in the result of `formulate(..., phsp_factor=MarkerPhsp, angular_momentum=L_marker,",
         "meson_radius=d_marker)`: the phase-space implementations (node classes and the `phsp_factor` of every",
-        "energy-dependent width), angular momenta and meson radii. Regenerated from the real objects. -/",
+        "energy-dependent width), angular momenta and meson radii, as sets and itemised per pole × channel.",
+        "Regenerated from the real objects. -/",
         "structure Occ where",
         "  cls : String",
         "  nChannels : Nat",
@@ -75,16 +86,45 @@ def occurrence_lean(rows) -> str:
         "  phsp : List String",
         "  angMom : List String",
         "  radius : List String",
+        "  items : List OccItem",
         "",
         "def occTable : List Occ := [",
     ]
     body = []
     for r in rows:
+        items = ", ".join(f'⟨"{k}", {R}, {i}, "{ph}", "{L}", "{d}"⟩' for (k, R, i, ph, L, d) in r["items"])
         body.append(f'  ⟨"{r["cls"]}", {r["n_channels"]}, {r["n_poles"]}, {str(r["hat"]).lower()}, '
-                    f'{str(r["relativistic"]).lower()}, {_lean_list(r["phsp"])}, {_lean_list(r["L"])}, {_lean_list(r["d"])}⟩')
+                    f'{str(r["relativistic"]).lower()}, {_lean_list(r["phsp"])}, {_lean_list(r["L"])}, {_lean_list(r["d"])},\n'
+                    f'    [{items}]⟩')
     out.append(",\n".join(body))
     out.append("]")
     return "\n".join(out) + "\n"
+
+
+def items_ok(r: dict, phsp_names: set, L: str, d: str) -> bool:
+    """The itemised form of the honouring statement (mirrors `honours` in Props/C10.lean)."""
+    its = r["items"]
+    if not r["relativistic"]:
+        return its == []
+    for (k, R, i, ph, l_, d_) in its:
+        if R == 99 or i == 99:
+            return False
+        if k == "W" and not (ph in phsp_names and l_ == L and d_ == d):
+            return False
+        if k == "F" and not (l_ == L and d_ == d):
+            return False
+        if k == "R" and ph not in phsp_names:
+            return False
+    have = {(k, R, i) for (k, R, i, *_rest) in its}
+    for i in range(r["n_channels"]):
+        if not any(k == "R" and R == 0 and c == i for (k, R, c) in have):
+            return False
+        for R in range(1, r["n_poles"] + 1):
+            if ("W", R, i) not in have:
+                return False
+        if r["cls"] == "RelativisticPVector" and ("F", 0, i) not in have:
+            return False
+    return True
 
 
 def build():
@@ -227,6 +267,52 @@ def bw_cases(rng, n: int):
     return bad
 
 
+def p_formula_cases(rng, n: int):
+    """The library's P-vector parametrisations against the documented formula, written out
+    independently in numpy: P_i = Σ_R β_R γ_Ri m_R Γ_Ri [· FormFactor_i(s)] / (m_R² − s)."""
+    import sympy as sp
+
+    from ampform.dynamics import kmatrix as km
+    from ampform.dynamics.form_factor import FormFactor
+    from tools.corr.C09_defs import base_symbols
+
+    B = base_symbols()
+    d = sp.Symbol("d", positive=True)
+    bad = []
+    count = 0
+    for nc, np_ in ((2, 2), (2, rng.randint(1, 3)), (rng.randint(1, 3), 1)):
+        L = rng.randint(0, 4)
+        exprs = []
+        for i in range(nc):
+            exprs.append(km.NonRelativisticPVector.parametrization(
+                i=i, s=B["s"], pole_position=B["m"], pole_width=B["Gamma"], residue_constant=B["gamma"],
+                beta_constant=B["beta"], n_poles=np_, pole_id=B["R"]))
+        for i in range(nc):
+            exprs.append(km.RelativisticPVector.parametrization(
+                i=i, s=B["s"], pole_position=B["m"], pole_width=B["Gamma"], m_a=B["m_a"], m_b=B["m_b"],
+                beta_constant=B["beta"], residue_constant=B["gamma"], n_poles=np_, pole_id=B["R"],
+                angular_momentum=L, meson_radius=d))
+        for i in range(nc):
+            exprs.append(FormFactor(B["s"], B["m_a"][i], B["m_b"][i], L, d))
+        ev = RealEvaluator(exprs)
+        for _ in range(n):
+            v = physical_point(rng, nc, np_)
+            v["d"] = rng.uniform(0.5, 3.0)
+            out = ev({k: v[k] for k in ev.names})
+            count += 1
+            for i in range(nc):
+                doc = sum(v[f"beta_{r}"] * v[f"gamma_{r}_{i}"] * v[f"m_{r}"] * v[f"Gamma_{r}_{i}"] / (v[f"m_{r}"] ** 2 - v["s"])
+                          for r in range(1, np_ + 1))
+                for cls, got, want in (("NonRelativisticPVector", out[i], doc),
+                                       ("RelativisticPVector", out[nc + i], doc * out[2 * nc + i])):
+                    if not abs(got - want) <= 1e-10 * (1 + abs(want)):
+                        bad.append({"what": "P-vector parametrisation differs from the documented formula",
+                                    "class": cls, "channel": i, "n_channels": nc, "n_poles": np_, "L": L, "values": v,
+                                    "library": [complex(got).real, complex(got).imag],
+                                    "documented": [complex(want).real, complex(want).imag]})
+    return bad, count
+
+
 def honour_cases(rng, tier: str):
     """Occurrence sets on the real objects for EVERY phase-space implementation of the library
     (and the marker), random angular momentum / radius symbols."""
@@ -251,14 +337,15 @@ def honour_cases(rng, tier: str):
         for r in rows:
             n += 1
             if r["relativistic"]:
-                ok = r["phsp"] == sorted(expected) and r["L"] == [str(L)] and r["d"] == [str(d)]
+                ok = (r["phsp"] == sorted(expected) and r["L"] == [str(L)] and r["d"] == [str(d)]
+                      and items_ok(r, expected, str(L), str(d)))
             else:
                 ok = r["phsp"] == [] and r["L"] == [] and r["d"] == []
             if not ok:
                 bad.append({"what": "an argument passed to formulate() is not the only one that occurs in the result",
                             "class": r["cls"], "n_channels": r["n_channels"], "n_poles": r["n_poles"], "hat": r["hat"],
                             "passed": {"phsp_factor": name, "angular_momentum": str(L), "meson_radius": str(d)},
-                            "found": {"phsp": r["phsp"], "L": r["L"], "d": r["d"]}})
+                            "found": {"phsp": r["phsp"], "L": r["L"], "d": r["d"], "items": [list(x) for x in r["items"]]}})
     return bad, n, sorted(reg)
 
 
@@ -295,6 +382,9 @@ def search(chk, rng, n_cases: int, tier: str):
             if r["residual"] > 1e-9 or r["residual_F_sqrt_rho"] > 1e-9:
                 bad.append({"what": "(1 - iK)F != P for the library's own K and P" if r["residual"] > 1e-9 else "F != sqrt(rho) F-hat",
                             **case, **r})
+    pbad, pcount = p_formula_cases(rng, 6 if tier == "quick" else 40)
+    chk.count(("p-formula", pcount), pcount)
+    bad += pbad
     bwbad = bw_cases(rng, 6 if tier == "quick" else 40)
     chk.count(("bw", len(bwbad)), 3 * 4 * (6 if tier == "quick" else 40))
     bad += bwbad
@@ -321,11 +411,13 @@ if spec.get("patch_inv"):
     # sympy's DEFAULT inversion (Gaussian elimination) does not terminate in reasonable time on the
     # 3x3 matrix of RelativisticPVector._create_matrices(3); the library's own code is run with the
     # default replaced by the adjugate method. Only sympy's algorithm changes, not ampform's source.
-    import sympy as sp
-    _orig = sp.MutableDenseMatrix.inv
+    from sympy.matrices.matrixbase import MatrixBase
+    _orig = MatrixBase.inv
     def _inv(self, method=None, **kw):
+        if method is None and self.is_diagonal():
+            return _orig(self, **kw)
         return _orig(self, method=method or "ADJ", **kw)
-    sp.MutableDenseMatrix.inv = _inv
+    MatrixBase.inv = _inv
 from tools.props.C10 import evaluate_case
 print(json.dumps([evaluate_case(c) for c in spec["cases"]]))
 """
